@@ -60,6 +60,7 @@ def sched_cases(ctx):
 
 def sched_oracle(case, out):
     t = case[0].split(); o = out[0]
+    if o.startswith("blocked-forever"): return "%s: the threads never finish under this schedule (a mutex is never released / a thread waits forever)" % case[0]
     if o.startswith("died"): return "%s: the run died (%s)" % (case[0], o)
     if t[2] == "arena":
         if "ov=1" in o: return "%s: blocks handed out by the shared arena overlap or were overwritten (%s)" % (case[0], o)
@@ -149,17 +150,32 @@ def run(ctx):
     env_t = dict(os.environ, TSAN_OPTIONS="halt_on_error=0:report_signal_unsafe=0:history_size=4:second_deadlock_stack=1")
     env_a = dict(os.environ, ASAN_OPTIONS="detect_leaks=1:max_allocation_size_mb=512", LSAN_OPTIONS="report_objects=0")
     import concurrent.futures as cf
+    import subprocess
+    hung = []
+    def run1(cmd, env):
+        try:
+            return vlib.sh(cmd, timeout=40, env=env)
+        except subprocess.TimeoutExpired:
+            subprocess.run(["pkill", "-x", os.path.basename(cmd[0])[:15]])
+            return (-999, "", "TIMEOUT")
     def one(r):
+        if len(hung) >= 3:                      # three runs that never end are enough: do not wait for fifty
+            return r, (0, "ok skipped", ""), (0, "ok skipped", "")
         args = [str(x) for x in r]
-        rc1, o1, e1 = vlib.sh([tsan] + args, timeout=600, env=env_t)
-        rc2, o2, e2 = vlib.sh([asan] + args, timeout=600, env=env_a)
-        return r, (rc1, o1, e1), (rc2, o2, e2)
+        a = run1([tsan] + args, env_t)
+        b = run1([asan] + args, env_a)
+        if a[0] == -999 or b[0] == -999: hung.append(r)
+        return r, a, b
     nbad = 0
     with cf.ThreadPoolExecutor(4) as ex:
         for r, (rc1, o1, e1), (rc2, o2, e2) in ex.map(one, runs):
             ctx.evaluations += 1
             ctx.distinct.add(r)
             line = "cc stress " + " ".join(str(x) for x in r)
+            if rc1 == -999 or rc2 == -999:
+                nbad += 1
+                ctx.add_witness("stress", [line], ["TIMEOUT"], [], "the stress run with %d threads did not finish within 40 s (normally under 2 s): threads block each other for good" % r[0])
+                continue
             for o, which in ((o1, "ThreadSanitizer build"), (o2, "AddressSanitizer build")):
                 for l in o.splitlines():
                     if l.startswith("BAD"):
